@@ -119,7 +119,7 @@ namespace sim
             void* cd = (void*)(uintptr_t)st.value("cookie", (uint64_t)0);
             int64_t t0 = g->clock_ns;
             uint64_t i0 = g->instr;
-            fprintf(stderr, "@api call\n");
+            fprintf(stderr, "@api call type=%s\n", (ty.size() == 1 && ty[0] >= 'a' && ty[0] <= 'z') || ty == "1" ? ty.c_str() : "other");
             g->ev({ "api_begin", "call", name, (uint64_t)(uintptr_t)cd, t0 });
             int r; std::string exc;
             try { r = sqfvm_call(p, cd, ty.empty() ? 's' : ty[0], text.data(), (uint32_t)text.size()); }
